@@ -16,6 +16,7 @@ def main():
     ap.add_argument("-k", default="")
     ap.add_argument("--props", default="")
     ap.add_argument("--repo", default="/repo")
+    ap.add_argument("-j", type=int, default=6)
     a = ap.parse_args()
     props = set(a.props.split(",")) if a.props else None
     results = []
@@ -24,12 +25,12 @@ def main():
         print(r.stdout.strip().splitlines()[-1] if r.stdout else r.stderr)
         if r.returncode != 0:
             results.append(("algebra unit tests", "FAILED"))
-    for m in MUTATIONS:
+    def one(m):
         if a.k and a.k not in m["name"]:
-            continue
+            return
         targets = m["expect"]  # {PID: "rule-id" | None (silent)}
         if props and not (set(targets) & props):
-            continue
+            return
         tmp = tempfile.mkdtemp(prefix="mtsa-selftest-")
         try:
             for f in ("src", "benches", "tests", "Cargo.toml", "Cargo.lock"):
@@ -62,7 +63,7 @@ def main():
                 open(p, "w").write(txt.replace(old, new))
             if not ok_apply:
                 results.append((m["name"], "SKIP (edit no longer applies)"))
-                print("SKIP  %s" % m["name"]); continue
+                print("SKIP  %s" % m["name"]); return
             for pid, want in targets.items():
                 if props and pid not in props:
                     continue
@@ -81,6 +82,9 @@ def main():
                 print("%-70s %s" % (m["name"] + " / " + pid, verdict))
         finally:
             shutil.rmtree(tmp, ignore_errors=True)
+    from concurrent.futures import ThreadPoolExecutor
+    with ThreadPoolExecutor(a.j) as ex:
+        list(ex.map(one, MUTATIONS))
     bad = [r for r in results if not r[1].startswith("ok") and not r[1].startswith("SKIP")]
     print("\n%d cases, %d not ok" % (len(results), len(bad)))
     sys.exit(1 if bad else 0)
